@@ -175,6 +175,10 @@ pub(crate) struct ExactLenStream<D, E> {
     #[allow(clippy::type_complexity)]
     stream: SyncWrapper<Pin<Box<dyn Stream<Item = Result<D, E>> + Send>>>,
     remaining: u64,
+
+    /// Set once the inner stream has ended or this stream has produced an error. The inner
+    /// stream (which needn't be fused) is never polled again after that.
+    done: bool,
 }
 
 impl<D, E> ExactLenStream<D, E> {
@@ -182,6 +186,7 @@ impl<D, E> ExactLenStream<D, E> {
         Self {
             stream: SyncWrapper::new(stream),
             remaining: len,
+            done: false,
         }
     }
 }
@@ -198,6 +203,9 @@ where
         cx: &mut std::task::Context<'_>,
     ) -> Poll<Option<Result<D, E>>> {
         let this = Pin::into_inner(self);
+        if this.done {
+            return Poll::Ready(None);
+        }
         match this.stream.get_mut().as_mut().poll_next(cx) {
             Poll::Ready(Some(Ok(d))) => {
                 let d_len = crate::as_u64(d.remaining());
@@ -206,14 +214,20 @@ where
                     this.remaining = new_rem;
                     Poll::Ready(Some(Ok(d)))
                 } else {
+                    this.done = true;
                     let remaining = std::mem::take(&mut this.remaining); // fuse.
                     Poll::Ready(Some(Err(E::from(Box::new(StreamTooLongError {
                         extra: d_len - remaining,
                     })))))
                 }
             }
-            Poll::Ready(Some(Err(e))) => Poll::Ready(Some(Err(e))),
+            Poll::Ready(Some(Err(e))) => {
+                this.done = true;
+                this.remaining = 0; // fuse.
+                Poll::Ready(Some(Err(e)))
+            }
             Poll::Ready(None) => {
+                this.done = true;
                 if this.remaining != 0 {
                     let remaining = std::mem::take(&mut this.remaining); // fuse.
                     return Poll::Ready(Some(Err(E::from(Box::new(StreamTooShortError {
